@@ -2,6 +2,7 @@
 From Coq Require Import List NArith.
 Import ListNotations.
 From IV Require Import C15.Defs C15.Proofs.
+From IV Require Import C08.Subst C08.SubstProofs.
 
 (* #define NAME(params) expansion: for EVERY byte string the constructor returns a manifest: no std::out_of_range,
    no index beyond the terminator, the parameter loop always makes progress (fuel is never exhausted) *)
@@ -60,3 +61,10 @@ Theorem c15_save_expansion_total : forall dfuel names variadic exp, length exp <
   exists l, save_expansion dfuel names variadic exp = Ok l.
 Proof. exact save_expansion_total. Qed.
 Print Assumptions c15_save_expansion_total.
+
+(* the substitution step of a macro invocation (r_expand: parameters, #, ##, __VA_ARGS__, __VA_OPT__ groups, the GCC comma rule) never
+   indexes the argument vector or a string out of range: every node list, every argument vector (also shorter than the parameter list),
+   every variadic position, every argument expander *)
+Theorem c15_r_expand_total : forall exp_arg fixed_opt args variadic nodes, exists r, r_expand exp_arg fixed_opt args variadic nodes = Ok r.
+Proof. exact r_expand_total. Qed.
+Print Assumptions c15_r_expand_total.
